@@ -46,6 +46,20 @@ CLAIMED = {
         "errors.py by random differential cases; that a site's index is the construct's own line is established per construct kind by the oracle.",
    technique="generated site table (Python ast -> Coq) + Coq proof of location arithmetic + placement sweep oracle",
    design_ref="DESIGN.md §6 C14"),
+ "C17": dict(
+   category="proof",
+   text="Helper-level theorems in coq/Props/C17.v (closed, all ASCII inputs, by induction) about Gallina models of "
+        "strip_inline_comment and detect_and_strip_indentation: an appended ' // comment' is invisible (exactly, and after "
+        "right-stripping unconditionally), \\// and //= are kept and do not start a comment (with the necessary side conditions "
+        "and vm_compute counterexamples showing they are necessary), uniform indentation by any whitespace prefix is invisible to "
+        "dedent, dedent is idempotent.  These are the _partial part of the whole claim 'parse(print style s) is independent of "
+        "style', which is NOT proved (the parser is not modelled end to end) and is decided on every run by the differential "
+        "oracle: generated stories printed in every surface style (legacy/@ forms, # lines, trailing // on one line kind at a "
+        "time, body indentation) must compile to identical dicts with the real compiler.",
+   note="Trusted: Coq kernel + vm_compute; Lex.v tied to the two real helpers by exhaustive short strings + random cases; "
+        "the story generator/printer (harness/storygen.py); the whole-story clause is differential evidence, not a theorem.",
+   technique="Coq proof about the lexical helpers + differential compile of every surface-style variant",
+   design_ref="DESIGN.md §6 C17"),
 }
 
 ALL = [f"C{i:02d}" for i in range(1, 21)]
